@@ -284,7 +284,7 @@ Definition handle (cf : cfg) (others : list session) (c : N) (r : req) (s : sess
           match (match p with
                  | TCP => match ril r with
                           | Some (a, _) => Some a
-                          | None => find_free (S (S (length (smedias s)))) 0 (smedias s)
+                          | None => find_free (S (length (smedias s) + length (smedias s))) 0 (smedias s)
                           end
                  | _ => Some 0
                  end) with
